@@ -335,8 +335,7 @@ def shape_of_field(k, vp, vs):
 
 def run(ctx):
     cov = ctx.coverage
-    if not m.regen_tables(ctx):
-        return
+    m.regen_tables(ctx)      # on failure (reported as a broken tie) go on with the tables of the last good run: the oracle below finds the input
     ok, log = ctx.prove(MODULE, ["drv_c20"])
     broken = []
     if not ok:
